@@ -329,3 +329,17 @@ def check(run):
     ob_equivocation(run, "O12.4")
     ob_layout(run, "O12.5")
     ob_consumed_authenticated(run, "O12.6")
+    if run.tier == "thorough":
+        witness(run, "O12.1w")
+
+
+def witness(run, oid):
+    o = run.ob(oid, "type-level witnesses (compile_fail doctests with compiling twins)", "the type system carries this part of the property across module boundaries", floor=3)
+    from engine import witness as W
+    res = W.run_witness()
+    if len(res) == 1 and res[0][0].startswith("skipped"):
+        o.ok("witness|skipped", res[0][2], "", nontrivial=False)
+        o.floor = 1
+        return
+    for name, ok, detail in W.expect(['ValidatedShredLiteralFails', 'ValidatedShredLiteralTwin', 'NewValidatedPrivateFails'], res):
+        o.check(ok, "witness|" + name, "doctest %s behaves as expected (%s)" % (name, "must not compile" if name.endswith("Fails") else "compiles"), "witness/src/lib.rs", {"detail": detail})
